@@ -1,29 +1,43 @@
 /- ykdrv: reads protocol lines on stdin, prints one verdict per line. -/
 import YkDrv.ResDrv
+import YkDrv.RingDrv
+import YkDrv.NodeDrv
+import YkDrv.StreamDrv
 open Lean YkDrv
 
-def dispatch (j : Json) : Except String String := do
+structure DrvState where
+  ring : RingSt := {}
+  node : NodeSt := {}
+
+def dispatch (st : DrvState) (j : Json) : Except String (DrvState × String) := do
   let c ← (fld j "c") >>= jStr
   match c with
-  | "res" => resStep j
-  | _ => pure "bad-op"
+  | "res" => pure (st, ← resStep j)
+  | "ring" => let (r, v) ← ringStep st.ring j; pure ({ st with ring := r }, v)
+  | "stream" => pure (st, ← streamStep j)
+  | "node" => let (r, v) ← nodeStep st.node j; pure ({ st with node := r }, v)
+  | _ => pure (st, "bad-op")
 
-partial def loop (h : IO.FS.Stream) (out : IO.FS.Stream) : IO Unit := do
+partial def loop (h : IO.FS.Stream) (out : IO.FS.Stream) (st : DrvState) : IO Unit := do
   let line ← h.getLine
   if line.isEmpty then return ()
   let t := line.trimAscii.toString
-  if t.isEmpty then
-    loop h out
+  if t.isEmpty || t.startsWith "#" then
+    loop h out st
   else
-    let v := match Json.parse t with
-      | .error e => s!"bad-op parse: {e}"
-      | .ok j => match dispatch j with
-        | .ok s => s
-        | .error e => s!"bad-op {e}"
-    out.putStrLn v
-    loop h out
+    match Json.parse t with
+    | .error e => out.putStrLn s!"bad-op parse: {e}"; loop h out st
+    | .ok j =>
+      match dispatch st j with
+      | .ok (st', s) =>
+        -- a panic recovered by the harness is always reported, whatever the model says
+        let s := match j.getObjVal? "panic" with
+          | .ok _ => "panic " ++ (j.getObjValD "c").compress ++ " " ++ (j.getObjValD "op").compress ++ " | " ++ s
+          | .error _ => s
+        out.putStrLn s; loop h out st'
+      | .error e => out.putStrLn s!"bad-op {e}"; loop h out st
 
 def main : IO Unit := do
   let out ← IO.getStdout
-  loop (← IO.getStdin) out
+  loop (← IO.getStdin) out {}
   out.flush
